@@ -109,6 +109,15 @@ def hist_oracle(run, case, evs, ia, before):
                 if e[1] == "n" and e[2] in nv and nv[e[2]][1] != "L":
                     run.oracle_fail("history", case, f"node {e[2]} sits in the locked container {j} but reports is_locked=False after {ev[0]}", f"hist:unlocked-member:{ev[0]}")
                     return
+    # (a') ... and lists that container among its lock parents (the half of `LockClosed` that makes a member unlock refuse: without it the
+    #      defect only shows after the holders of the container are gone).  An empty lazy stack has no member to hold its parents (known finding).
+    for j, r in nv.items():
+        if r[2] == "t":
+            for e in r[4]:
+                if e[1] == "n" and e[2] in nv and j not in nv[e[2]][3] and not (nv[e[2]][2] == "n" or (not nv[e[2]][4] and nv[e[2]][3] == [])):
+                    run.oracle_fail("history", case, f"node {e[2]} sits in the locked container {j} but does not list it among its lock parents {nv[e[2]][3]} after {ev[0]}: "
+                                    f"it can be unlocked on its own once the other holders are gone", f"hist:unregistered-container:{ev[0]}")
+                    return
     if prev is None:
         run.oracle_ok("history")
         return
